@@ -553,7 +553,10 @@ def run(sc):
         w0.post_checks()
         deliveries += w0.mon.seq
         for name in w.bystander_names():
-            a, b = w.logs.get(name, []), w0.logs.get(name, [])
+            # both runs have the same explicit end_time; the engine may deliver ONE event past it, and which event
+            # that is differs legitimately between the runs, so logs are compared up to end_time only
+            a = [x for x in w.logs.get(name, []) if x[0] <= w.sim_end_ns]
+            b = [x for x in w0.logs.get(name, []) if x[0] <= w0.sim_end_ns]
             if a != b:
                 k = next((i for i, (x, y) in enumerate(zip(a, b)) if x != y), min(len(a), len(b)))
                 sig = f"C06/bystander-affected/{_bystander_category(w, name)}/log-differs-from-fault-free-run"
